@@ -2258,4 +2258,27 @@ theorem read_faithful_chunked_canon (m t p : Bytes) (hs : List (Bytes × Bytes))
   rw [hdata] at this
   exact this
 
+/-! ## history: why the totality theorems were false before the repairs (not part of the obligations) -/
+
+/-- the non-chunked pass of `readBody`'s outer loop as it was before fix c3aed7a: `maxToRead = available()` with
+    no `maxToRead = 1` when the peer has closed -/
+def bodyStepBeforeFix (x : BodySt) : M (Step BodySt (Sock × Bytes)) :=
+  let av := x.s.available
+  if av < 0 then pure (.done (x.s, x.body))
+  else do
+    let b ← readBlocks x.s av x.size x.body
+    if b.ret then pure (.done (b.s, b.body)) else pure (.next ⟨b.s, b.size, b.body⟩)
+
+/-- `Content-Length: 100`, nothing left to read, peer closed: every pass leaves the state unchanged, so no amount of
+    fuel ends the loop (the 100 % CPU spin of defect #14) -/
+theorem readBody_spin_before_fix (fuel : Nat) :
+    iterate bodyStepBeforeFix fuel ⟨{ inp := [] }, 100, []⟩ = .error .spin := by
+  induction fuel with
+  | zero => rfl
+  | succ f ih =>
+    have hstep : bodyStepBeforeFix ⟨{ inp := [] }, 100, []⟩ = .ok (.next ⟨{ inp := [] }, 100, []⟩) := by rfl
+    simp only [iterate, hstep]
+    exact ih
+
+
 end AslProofs.HttpParse
